@@ -233,7 +233,7 @@ class C23(Prop):
     theorems = ['C23_config_recase_invariant', 'C23_recase_invariant', 'C23_populate_recase_invariant',
                 'C23_recase_invariant_norm', 'C23_order_recase_invariant', 'C23_folding_needed',
                 'C23_eq_hash_partial', 'C23_eq_hash_fixed', 'C23_set_mem_partial', 'C23_set_no_case_duplicates',
-                'C23_dup_keys_module', 'C23_dup_keys_partial', 'C23_eq_hash_current', 'C23_tables']
+                'C23_dup_keys', 'C23_dup_never_fails', 'C23_eq_hash_current', 'C23_tables']
     design_ref = 'DESIGN.md 4.D C23'
     level = 'proof'
     level_text = ('Theorems (Lean kernel; every project abstraction, configuration, seed list and every re-casing pi, i.e. any name map '
@@ -247,9 +247,9 @@ class C23(Prop):
                   'set lookup agrees with ==, no case-duplicates in a set, when stored names are lower-case (for an arbitrary hash '
                   'function); C23_eq_hash_fixed — hashing the lower-cased name is consistent unconditionally (fix candidate); the '
                   'failing witnesses (C23_eq_hash_full_false, C23_set_holds_both) are in the non-gating Findings module. '
-                  'DuplicateKernel: C23_dup_keys_module / C23_dup_keys_partial — the cache keys produced through '
-                  'get_or_create_item_from_item depend on the suffix options only through their lower-cased form outside the class '
-                  'KnownDupSuffixCase (kernel outside any module and a suffix that changes under lower()); C23_dup_keys_full_false '
+                  'DuplicateKernel: C23_dup_keys (full since the fix: commit) — the cache keys produced through '
+                  'get_or_create_item_from_item depend on the suffix options only through their lower-cased form, and '
+                  'C23_dup_never_fails — cloning never ends in "Failed to clone item"; the old behaviour is kept as C23_old_dup_witness '
                   '(Findings) is the witness. Tie to the code: metamorphic correspondence — the real Scheduler on generated projects '
                   'and on their case-permuted twins (graph in graph order with kinds, processing order of a probe transformation, '
                   'full_parse on/off), DuplicateKernel in PLAN mode with mixed-case suffix options, and real ProcedureItem objects '
@@ -424,16 +424,11 @@ class C23(Prop):
         raise ValueError(op)
 
     def dup_class(self, req):
-        """duplicate-suffix-case: the kernel is a routine outside any module and local name + suffix changes under lower()"""
-        items, free, _ = truth(field(req, 'proj'))
-        k = str(field(req, 'kernel')[1]).lower()
-        s = str(field(req, 'suffix')[1])
-        if k in free and (k + s).lower() != k + s:
-            return 'duplicate-suffix-case'
+        """no known class left: duplicate-suffix-case was repaired (definition_items is a CaseInsensitiveDict)"""
         return None
 
     def classes(self):
-        return ['item-hash-case', 'duplicate-suffix-case']
+        return ['item-hash-case']
 
 
 PROP = C23()
